@@ -34,7 +34,7 @@ ASSUMPTIONS = [
     "documented errors = the exception classes of pyoak.legacy.error; an operation that raises anything else gives no verdict (counted)",
     "operations expected to be rejected that are accepted give no verdict (counted) and join the history",
 ]
-MUST_SEE = ["wrapper_reusing_own_child", "replace_with_own_child", "adopted_children_checked", "runtime_only_child_field_transform", "rule_replaces_children_of_its_copy", "receiver_below_falsy_parent", 
+MUST_SEE = ["visitor_reused_after_rejection", "wrapper_reusing_own_child", "replace_with_own_child", "adopted_children_checked", "runtime_only_child_field_transform", "rule_replaces_children_of_its_copy", "receiver_below_falsy_parent", 
     "rejected_ASTNodeDuplicateChildrenError", "rejected_ASTNodeParentCollisionError", "rejected_ASTNodeIDCollisionError", "rejected_ASTNodeRegistryCollisionError",
     "rejected_ASTNodeReplaceError", "rejected_ASTNodeReplaceWithError", "rejected_ASTTransformError", "failing_element_not_first", "frames_compared", "nested_failing_element", "two_collided_children",
 ]
@@ -108,8 +108,8 @@ def run_shard(ctx):
             kind = rng.choices(
                 ["dup_seq", "dup_two_fields", "parent_collision", "parent_collision_nested", "id_collision", "attach_collision", "attach_collision_nested",
                  "replace_keys", "replace_dup", "replace_parent_collision", "rw_has_parent", "rw_wrong_class", "rw_none_required", "rw_attach_fails",
-                 "transform_raises", "transform_removes_required", "transformer_raises", "rw_clone_of_attached", "parent_collision_two", "transform_runtime_children", "rw_own_child", "rw_wrapper_reuses_child"],
-                [3, 3, 1, 1, 3, 3, 1, 3, 1, 1, 3, 3, 3, 1, 3, 3, 3, 2, 2, 2 if f"{P}Seq" in U.cls else 0, 2, 2],
+                 "transform_raises", "transform_removes_required", "transformer_raises", "rw_clone_of_attached", "parent_collision_two", "transform_runtime_children", "rw_own_child", "rw_wrapper_reuses_child", "transform_reused_visitor"],
+                [3, 3, 1, 1, 3, 3, 1, 3, 1, 1, 3, 3, 3, 1, 3, 3, 3, 2, 2, 2 if f"{P}Seq" in U.cls else 0, 2, 2, 2],
             )[0]
             where = rng.choice(["first", "middle", "last"])
             if kind == "dup_seq":
@@ -224,6 +224,31 @@ def run_shard(ctx):
                 if x is None or x is n:
                     return None
                 return ("replace_with", "first", n, [x], lambda: n.replace_with(x))
+            if kind == "transform_reused_visitor":
+                # one visitor object, used again after a transform of its was rejected; its rule for list holders edits the
+                # lists of the working copy it is given in place (harmless: a copy), a later rule raises
+                empty = U.cls[f"{P}Lst"](elems=[], origin=NO)
+                filled = U.cls[f"{P}Lst"](elems=[leaf()], origin=NO)
+                last = U.cls[f"{P}Leaf2"](v=R.counter + 70000, origin=NO)
+                n = U.cls[f"{P}List"](items=(empty, filled, last) if where != "first" else (last, empty, filled), origin=NO)
+                other = U.cls[f"{P}List"](items=(U.cls[f"{P}Leaf2"](v=R.counter + 71000, origin=NO),), origin=NO)
+                F.add(n, other)
+
+                def on_lst(self_, node):
+                    R.counter += 1
+                    node.elems.append(U.cls[f"{P}Leaf"](v=R.counter + 72000, origin=NO, create_detached=True))
+                    return ASTTransformVisitor.generic_visit(self_, node)
+
+                def on_last(self_, node):
+                    raise RuntimeError("rule raised")
+
+                v = type("RV3", (ASTTransformVisitor,), {f"visit_{P}Lst": on_lst, f"visit_{P}Leaf2": on_last})()
+                try:
+                    v.transform(other)  # rejected once already
+                except Exception:  # noqa: BLE001
+                    pass
+                ctx.count("visitor_reused_after_rejection")
+                return ("transform", "nested", n, [], lambda: v.transform(n))
             if kind == "rw_wrapper_reuses_child":
                 # a detached wrapper that re-uses one of the receiver's own children (at another index) next to a node
                 # that still belongs to another parent: the wrapper is refused
